@@ -100,6 +100,9 @@ func (e *executorImpl) rpc(shardId *int64) (proto.OxiaClientClient, error) {
 	var target string
 	if shardId != nil {
 		target = e.ShardManager.Leader(*shardId)
+		if target == "" {
+			return nil, fmt.Errorf("shard %d is not available anymore", *shardId)
+		}
 	} else {
 		target = e.ServiceAddress
 	}
